@@ -6,6 +6,7 @@
 #endif
 #define VF_INPUTS(X) X(unsigned char, t, [L + 2]) X(size_t, bigidx, )
 #include "vf.h"
+#include "vf_str.h"
 #include "vf_strtoul.h"
 #include "cJSON_Utils.c"
 int main(VF_MAIN_ARGS)
